@@ -1,6 +1,6 @@
 SPECIFICATION Spec
 CONSTANTS
-  Leaves <- SmallLeaves
+  Leaves <- QuickLeaves
   UnOps <- AllUn
   BinOps <- AllBin
   CmpOps <- AllCmp
